@@ -44,13 +44,24 @@ var boundPairs = [][2]string{
 	{"", "b"},    // upper bound only, in a gap
 }
 
+// Bound pairs of the depth-5 plan (re-bounding to disjoint windows inside one table): an iterator
+// positioned under one window, moved to a window entirely on one side of it, asked for a prefix the
+// table's bloom filter excludes (which positions nothing), moved to a window in between, and asked
+// for its first/last key.
+var boundPairsD5 = [][2]string{
+	{"", "a@3"},    // holds a only
+	{"b@2", ""},    // holds b@2, c
+	{"a@3", "b@2"}, // holds a@3, a@1 - between the two
+	{"c", ""},
+}
+
 var initialBounds = [][2]string{{"", ""}, {"a@1", ""}, boundPairs[0], boundPairs[1], boundPairs[2], boundPairs[3]}
 
 func allKeys() []string {
 	ks := append([]string{}, universe...)
 	ks = append(ks, probes...)
 	ks = append(ks, probesExtra...)
-	for _, b := range append(append([][2]string{}, boundPairs...), initialBounds...) {
+	for _, b := range append(append(append([][2]string{}, boundPairs...), initialBounds...), boundPairsD5...) {
 		ks = append(ks, b[0], b[1])
 	}
 	return ks
@@ -136,7 +147,21 @@ type plan struct {
 	name    string
 	alpha   []Call
 	depth   int
-	nStates int // the plan runs on the first nStates states (hand-built first, then the picked histories)
+	nStates int         // the plan runs on the first nStates states (hand-built first, then the picked histories)
+	init    [][2]string // initial bound pairs (nil = initialBounds)
+}
+
+// d5Plan is the targeted depth-5 plan: absolute positioning, prefix seeks for prefixes some tables
+// lack, and SetBounds over windows that are disjoint from or nested between one another.
+func d5Plan(nStates int) plan {
+	a := []Call{{Op: "First"}, {Op: "Last"},
+		{Op: "SeekGE", K: "a@3"}, {Op: "SeekLT", K: "b@2"}, {Op: "SeekLT", K: "c"},
+		{Op: "SeekPrefixGE", K: "b"}, {Op: "SeekPrefixGE", K: "c"}}
+	for _, b := range boundPairsD5 {
+		a = append(a, Call{Op: "SetBounds", Lo: b[0], Hi: b[1]})
+	}
+	a = append(a, Call{Op: "SetBounds", Lo: boundPairs[3][0], Hi: boundPairs[3][1]}, Call{Op: "SetBounds", Lo: boundPairs[2][0], Hi: boundPairs[2][1]})
+	return plan{name: "d5-rebound-prefix", alpha: a, depth: 5, nStates: nStates, init: [][2]string{{"", ""}, boundPairsD5[0], boundPairsD5[1]}}
 }
 
 // Number of picked write histories (each is built under both configurations) per tier.
@@ -151,14 +176,15 @@ var quickLimits = []string{"a@2", "b", "c"}
 func plans(thorough bool) []plan {
 	nHand := len(handShapes) * len(stateConfigs)
 	if !thorough {
-		return []plan{{"d3", alphabet(probes, probes, quickLimits, "ordered", 4, 3), 3, nHand + 2*quickHistories}}
+		return []plan{{name: "d3", alpha: alphabet(probes, probes, quickLimits, "ordered", 4, 3), depth: 3, nStates: nHand + 2*quickHistories}, d5Plan(nHand)}
 	}
 	d3 := alphabet(probes, probes, probes, "ordered", 4, 3)
 	wide := append(append([]string{}, probes...), probesExtra...)
 	return []plan{
-		{"d3", d3, 3, nHand + 2*thoroughHistories},
-		{"d3-wide", alphabet(wide, wide, probes, "all", 4, 3), 3, nHand + 2*4},
-		{"d4-core", alphabet(probes, []string{"a@2", "b@2", "c"}, []string{"a@2", "b@2"}, "few", 2, 1), 4, nHand + 2*16},
+		{name: "d3", alpha: d3, depth: 3, nStates: nHand + 2*thoroughHistories},
+		d5Plan(nHand + 2*8),
+		{name: "d3-wide", alpha: alphabet(wide, wide, probes, "all", 4, 3), depth: 3, nStates: nHand + 2*4},
+		{name: "d4-core", alpha: alphabet(probes, []string{"a@2", "b@2", "c"}, []string{"a@2", "b@2"}, "few", 2, 1), depth: 4, nStates: nHand + 2*16},
 	}
 }
 
@@ -680,6 +706,10 @@ func TestCheck(t *testing.T) {
 			pst := states
 			if p.nStates < len(pst) {
 				pst = pst[:p.nStates]
+			}
+			initialBounds := initialBounds
+			if p.init != nil {
+				initialBounds = p.init
 			}
 			nItems := len(pst) * len(initialBounds) * len(first)
 			var planSeqs atomic.Int64
